@@ -210,6 +210,14 @@ def E1_lmpdat_writer_reader(repo, clause):
     ok_reader = len(order) == 2 and rc.get(order[0]) == (1, None) and rc.get(order[1]) == (2, None)
     obs.append(Ob("E1", clause, gtt, gtt.node, ok_reader, "term reader: type = column 1 minus 1, atoms = columns 2.. minus 1 (%s)" % rc, construct="def get_types_tups", slot="terms:reader",
                   positive=len(order) == 2 and len(rc) >= 1))
+    # the reader keeps EVERY row of a term section: a de-duplication (np.unique over rows, set / dict.fromkeys of tuples) keyed on part of the columns drops terms that
+    # differ in the others - two torsions on the same four atoms with different types are both part of the file
+    for c_ in [x for x in gtt.own_nodes() if isinstance(x, ast.Call) and call_name(x) in ("unique", "fromkeys", "drop_duplicates")]:
+        a0 = c_.args[0] if c_.args else None
+        partial = a0 is not None and any(isinstance(y, ast.Subscript) and isinstance(y.slice, ast.Tuple) for y in ast.walk(a0))
+        obs.append(Ob("E1", clause, gtt, c_, False,
+                      "`%s` de-duplicates the rows of a term section%s: a data file may list several terms on the same atoms (multi-term torsions with different types), and every one of them "
+                      "has to come back" % (ast.unparse(c_)[:60], " by a SUBSET of the columns" if partial else ""), slot="terms:reader-keeps-rows", positive="robust"))
     for k in KINDS:
         found = None
         for c, s, a in writes:
